@@ -40,7 +40,7 @@ def is_chacha(n):
 
 
 def is_cbc(n):
-    return s_or(n.endswith('-cbc'), n.endswith('-cbc@openssh.org'), n.endswith('-cbc@ssh.com'), n == 'rijndael-cbc@lysator.liu.se')
+    return s_or(n.endswith('-cbc'), n.endswith('-cbc@openssh.org'), n.endswith('-cbc@ssh.com'), n == 'rijndael-cbc@lysator.liu.se', n == 'des-cbc-ssh1')
 
 
 def is_etm(n):
